@@ -288,8 +288,9 @@ def _bt_runs(configs, variant, count, prop, timeout=1800, heavy_div=15):
 
 
 _BT_RULE = ("a case = 4 operation histories (2 container instantiations of the unit's group x binary/linear "
-            "in-node search) of 60..1500 operations over two live containers: insert (value, hinted, range), "
-            "erase(key), erase_one, erase(iterator, often inside duplicate runs), find/count/exists/lower_bound/"
+            "in-node search) of 60..1500 operations over two live containers: insert (value, hinted, range; also with the "
+            "value passed as a reference to an entry stored in the tree), erase(key), erase_one (one time in four with the "
+            "key passed as a reference to the key stored in the tree), erase(iterator, often inside duplicate runs), find/count/exists/lower_bound/"
             "upper_bound/equal_range through const and non-const overloads on present, absent and out-of-range "
             "keys, operator[], ==,!=,<,<=,>,>= between the two containers, copy-construct, assignment (also self "
             "and onto non-empty), swap, clear, bulk_load of N items with N around multiples of the node "
